@@ -230,13 +230,18 @@ def all_configs():
                (("save-update", "merge"), False), (("save-update", "merge", "refresh-expire", "expunge"), False)]
     backs = [(), ("save-update", "merge")]
     n = 0
-    for kind in ("Z1", "Z2", "Z3", "Z5"):
+    for kind in ("Z1", "Z2", "Z3", "Z5", "Z6"):
         for s, orphan in subsets:
             if kind == "Z3" and orphan:
                 continue
             for back in backs:
                 n += 1
-                if kind == "Z1":
+                if kind == "Z6":
+                    if back:
+                        continue  # no reverse side at all
+                    sec, sec_o = seconds[n % len(seconds)]
+                    yield Config(kind, s, orphan, (), sec, sec_o)
+                elif kind == "Z1":
                     sec, sec_o = seconds[n % len(seconds)]
                     yield Config(kind, s, orphan, back, sec, sec_o)
                 elif kind == "Z3" and back:
@@ -257,6 +262,7 @@ class World:
         self.eng = sqlite_engine()
         self.reg.metadata.create_all(self.eng)
         self.orphan_rels = [r for r in self.rels if r.orphan]
+        self.real_rels = [r for r in self.rels if not r.virtual]
         self.serial = 0
         self.dirty_db = False
         self.reset()
@@ -289,8 +295,12 @@ class World:
         if x == y:
             return False
         rev = sh.rev(rel)
+        if rel.virtual:
+            return False
         if rel.collection and y in sh.val[(x, rel.attr)]:
             return False
+        if rev.virtual and sh.val[(y, rev.attr)] not in (None, x):
+            return False  # unidirectional: nothing would take the child out of the other list
         if rel.shape == "o2o":
             h = sh.val[(y, rev.attr)]
             if h is not None and h != x:
@@ -349,7 +359,7 @@ class World:
                 names.append(self.new(cls))
         nlinks = links if links is not None else rng.randint(len(names) // 2, len(names) + 2)
         for _ in range(nlinks):
-            rel = rng.choice(self.rels)
+            rel = rng.choice(self.real_rels)
             xs = [n for n in names if self.sh.cls_of[n] == rel.cls]
             ys = [n for n in names if self.sh.cls_of[n] == rel.target]
             x, y = rng.choice(xs), rng.choice(ys)
@@ -389,7 +399,8 @@ class World:
     def load_all(self):
         for n, o in self.obj.items():
             for r in self.sh.by_cls.get(self.sh.cls_of[n], ()):
-                getattr(o, r.attr)
+                if not r.virtual:
+                    getattr(o, r.attr)
             o.name
 
 
@@ -433,7 +444,9 @@ def scenario_su(w, rng):
                 if not members:
                     continue
                 x = rng.choice(members)
-                rels = w.sh.by_cls.get(w.sh.cls_of[x], [])
+                rels = [r for r in w.sh.by_cls.get(w.sh.cls_of[x], []) if not r.virtual]
+                if not rels:
+                    continue
                 rel = rng.choice(rels)
                 y = w.new(rel.target)
                 # the fresh object may bring a fresh subgraph below it
@@ -559,6 +572,7 @@ def scenario_orph(w, rng):
                     if w.sh.cls_of[n] == rel.target:
                         db_parent[(n, rel.attr)] = w.sh.val[(n, rev.attr)]
             removed = set()  # children that lost a delete-orphan parent link during this round
+            attached = set()
             for step in range(rng.randint(1, 5)):
                 rel = rng.choice(w.orphan_rels)
                 rev = w.sh.rev(rel)
@@ -577,8 +591,13 @@ def scenario_orph(w, rng):
                     changed = True
                 elif r < 0.6:
                     c = rng.choice(kids)
+                    if rev.virtual and db_parent.get((c, rel.attr)) is None:
+                        # unidirectional: a child that was in no collection at the last flush and
+                        # is attached and detached again is invisible to the unit of work
+                        continue
                     if w.can_link(p, rel, c):
                         hist.append(["attach", p, rel.attr, c])
+                        attached.add(c)
                         oldp = w.sh.val[(c, rev.attr)]
                         if oldp is not None and oldp != p:
                             removed.add(c)
@@ -592,6 +611,7 @@ def scenario_orph(w, rng):
                     w.unlink(p, rel, c)
                     w.link(p, rel, c)
                     removed.add(c)
+                    attached.add(c)
                 elif r < 0.8 and rel.collection:
                     keep = [c for c in cur if rng.random() < 0.5]
                     hist.append(["replace", p, rel.attr, keep])
@@ -615,6 +635,20 @@ def scenario_orph(w, rng):
                         gone |= w.sh.closure(n, "delete")
                         if db_parent.get((n, rel.attr)) is None:
                             toplevel.add(n)
+            parent_deleted = False
+            if rng.random() < 0.25:
+                # delete a parent of the delete-orphan relationship in the same flush
+                rel = rng.choice(w.orphan_rels)
+                # (an object that was attached to a parent in this round is excluded:
+                # the attachment cancels a delete by design)
+                parents = sorted(n for n in w.obj if w.sh.cls_of[n] == rel.cls and n not in attached)
+                if parents:
+                    p = rng.choice(parents)
+                    hist.append(["delete", p])
+                    parent_deleted = True
+                    gone |= w.sh.closure(p, "delete")
+                    sess.delete(w.obj[p])
+                    changed = True
             hist.append(["flush"])
             orphans = toplevel
             try:
@@ -622,6 +656,7 @@ def scenario_orph(w, rng):
             except sa_exc.IntegrityError as e:
                 ctx.count("orphan_checks")
                 violation(w, "ORPH", "delete-orphan-toplevel-skips-delete-cascade" if toplevel
+                          else "delete-orphan-parent-delete-skips-orphan-cascade" if parent_deleted
                           else "delete-orphan-flush-integrityerror",
                           "after %s flush raised %s on [%s]; orphans %s with delete closure %s" % (
                               hist, type(e).__name__, str(e).split("[SQL:")[-1][:60], sorted(orphans), sorted(gone)),
@@ -635,7 +670,9 @@ def scenario_orph(w, rng):
                 wrongly_deleted = sorted(want - rows)
                 survived = sorted(rows - want)
                 mech = "delete-orphan-deletes-associated-member" if wrongly_deleted else "delete-orphan-row-survives"
-                if not wrongly_deleted and survived and toplevel and not (set(survived) & toplevel):
+                if not wrongly_deleted and survived and parent_deleted and not (set(survived) & removed):
+                    mech = "delete-orphan-parent-delete-skips-orphan-cascade"
+                elif not wrongly_deleted and survived and toplevel and not (set(survived) & toplevel):
                     # the orphan itself is gone but what its delete cascade reaches survived
                     mech = "delete-orphan-toplevel-skips-delete-cascade"
                 violation(w, "ORPH", mech,
@@ -665,8 +702,8 @@ def scenario_orph_targeted(w):
     ctx = w.ctx
     rel = w.orphan_rels[0]
     below = [r for r in w.sh.by_cls.get(rel.target, ()) if r.shape in ("o2m", "o2o", "m2m")]
-    if not below:
-        return
+    if not below or w.sh.rev(rel).virtual:
+        return  # (unidirectional: the child is untouched, the unit of work cannot see it)
     w.reset()
     p, c = w.new(rel.cls), w.new(rel.target)
     g = w.new(below[0].target)
@@ -692,6 +729,105 @@ def scenario_orph_targeted(w):
                       {"history": hist, "expected": sorted(want)})
         sess.rollback()
     ctx.case({"cfg": w.cfg.desc(), "sc": "ORPH-T"}, nontrivial=len(gone) > 1)
+
+
+def scenario_orph_delete_parent(w):
+    """a persistent child is removed from a delete-orphan collection and its parent is
+    deleted in the same flush: the removed child is an orphan (deleted with its delete
+    closure), the parent's delete cascade takes the remaining children."""
+    from sqlalchemy import exc as sa_exc
+    from sqlalchemy import orm
+
+    ctx = w.ctx
+    rel = w.orphan_rels[0]
+    w.reset()
+    p, c1 = w.new(rel.cls), w.new(rel.target)
+    names = [p, c1]
+    w.link(p, rel, c1)
+    if rel.collection:
+        c2 = w.new(rel.target)
+        w.link(p, rel, c2)
+        names.append(c2)
+    below = [r for r in w.sh.by_cls.get(rel.target, ()) if r.shape in ("o2m", "o2o", "m2m") and not r.virtual]
+    if below and below[0].target != rel.cls or (below and w.cfg.kind == "Z2"):
+        g = w.new(below[0].target)
+        if w.can_link(c1, below[0], g):
+            w.link(c1, below[0], g)
+        names.append(g)
+    hist = [["persist"] + names, ["remove", p, rel.attr, c1], ["delete", p], ["flush"]]
+    with orm.Session(w.eng, expire_on_commit=False) as sess:
+        persist_all(w, sess, names)
+        w.load_all()
+        w.unlink(p, rel, c1)
+        gone = w.sh.closure(c1, "delete") | w.sh.closure(p, "delete")
+        sess.delete(w.obj[p])
+        want = set(w.obj) - gone
+        ctx.count("orphan_checks")
+        mech = "delete-orphan-removed-child-survives-parent-delete"
+        try:
+            sess.flush()
+            rows = w.table_names(sess)
+            problem = None if rows == want else "rows %s, expected %s" % (sorted(rows), sorted(want))
+            if problem and c1 not in rows and p not in rows:
+                mech = "delete-orphan-parent-delete-skips-orphan-cascade"
+        except sa_exc.IntegrityError as e:
+            # the orphan is DELETEd while rows its own delete cascade should have removed
+            # still reference it
+            problem = "flush raised IntegrityError on [%s]" % str(e).split("[SQL:")[-1][:50]
+            mech = "delete-orphan-parent-delete-skips-orphan-cascade"
+        if problem:
+            violation(w, "ORPH-D", mech,
+                      "after %s: %s" % (hist, problem), {"history": hist, "expected": sorted(want)})
+        sess.rollback()
+    ctx.case({"cfg": w.cfg.desc(), "sc": "ORPH-D"}, nontrivial=True)
+
+
+def scenario_pre_orphan(w, rng):
+    """nobody is in a session: a transient child is put into a delete-orphan relationship
+    and taken out again (remove / replacement / del), stays parentless, and is then given
+    to Session.add() / add_all() explicitly.  It is the argument of add(): it is part of
+    the session with its save-update closure and flush INSERTs it."""
+    from sqlalchemy import orm
+
+    ctx = w.ctx
+    rel = rng.choice(w.orphan_rels)
+    w.reset()
+    p, c = w.new(rel.cls), w.new(rel.target)
+    below = [r for r in w.sh.by_cls.get(rel.target, ()) if r.shape in ("o2m", "o2o", "m2m") and not r.virtual]
+    if below and rng.random() < 0.6:
+        g = w.new(below[0].target)
+        if w.can_link(c, below[0], g):
+            w.link(c, below[0], g)
+    w.link(p, rel, c)
+    how = rng.choice(["remove", "replace", "del"])
+    if how == "remove" or not rel.collection and how == "replace":
+        w.unlink(p, rel, c)
+        how = "remove"
+    elif how == "replace":
+        setattr(w.obj[p], rel.attr, [])
+        w.sh.unlink(p, rel, c)
+    else:
+        delattr(w.obj[p], rel.attr)
+        w.sh.unlink(p, rel, c)
+    adder = rng.choice(["add", "add_all"])
+    hist = [["attach", p, rel.attr, c], [how, p, rel.attr, c], [adder, c], ["flush"]]
+    want = w.sh.closure(c, "save-update")
+    with orm.Session(w.eng, expire_on_commit=False) as sess:
+        if adder == "add":
+            sess.add(w.obj[c])
+        else:
+            sess.add_all([w.obj[c]])
+        sess.flush()
+        w.dirty_db = True
+        ctx.count("su_checks")
+        rows = w.table_names(sess)
+        got = w.in_session(sess)
+        if rows != want or got != want:
+            violation(w, "PRE", "explicitly-added-former-orphan-dropped",
+                      "after %s: rows %s, session %s, expected %s" % (hist, sorted(rows), sorted(got), sorted(want)),
+                      {"history": hist, "rows": sorted(rows), "session": sorted(got), "expected": sorted(want)})
+        sess.rollback()
+    ctx.case({"cfg": w.cfg.desc(), "sc": "PRE", "hist": hist}, nontrivial=True)
 
 
 def scenario_exp(w, rng):
@@ -817,8 +953,10 @@ def run(ctx):
             if w.orphan_rels:
                 for _ in range(3):
                     scenario_orph(w, rng)
+                scenario_pre_orphan(w, rng)
                 if rep == 0:
                     scenario_orph_targeted(w)
+                    scenario_orph_delete_parent(w)
             scenario_exp(w, rng)
             scenario_ref(w, rng)
             scenario_mrg(w, rng)
